@@ -741,7 +741,7 @@ Fixpoint step (dbg : bool) (i : instr) (m : mstate) {struct i} : option mstate :
     | _ => None
     end
   | ICArr n =>
-    if (2 <=? Z.of_nat n) && (Z.of_nat n <=? Z.of_nat (length (stk m)))
+    if Nat.leb 2 n && Nat.leb n (length (stk m))
     then Some (mkM (OfKind KCArr :: skipn n (stk m)) (warn m) (lines m) (fl m)) else None
   | ICall c => match stk m with a :: rest => put rest (call c a) m | _ => None end
   | IPrint => match stk m with a :: rest => Some (mkM rest (warn m) (S (lines m)) (fl m)) | _ => None end
